@@ -495,6 +495,11 @@ func (s *netSim) conflictScenario(t NetTx) {
 	r := s.r
 	bc := r.P.BC
 	a := r.prod.kr.acct(t.Op.A)
+	if mtb := bc.GetMaxTraceableBlocks(); t.Op.Y%2 == 1 && mtb <= 12 &&
+		s.now()+time.Duration(mtb+4)*blockTimeMS*time.Millisecond < time.Duration(s.np.DurationMS)*time.Millisecond {
+		s.staleConflictScenario(t, mtb)
+		return
+	}
 	nv := 2 + t.Op.X%2
 	var victims []*transaction.Transaction
 	c := s.simpleTransfer(a, r.prod.kr.acctHash(t.Op.B), 3)
@@ -520,8 +525,53 @@ func (s *netSim) conflictScenario(t NetTx) {
 	ch := c.Hash()
 	for i, v := range victims {
 		v := v
-		s.conflictVictims[v.Hash()] = ch
+		s.conflictVictims[v.Hash()] = append(s.conflictVictims[v.Hash()], ch)
 		s.at(s.now()+time.Duration(3500+700*i)*time.Millisecond, func() { s.sendToTargets(v, t.Targets|1) })
+	}
+}
+
+// staleConflictScenario: two on-chain transactions name the same victim at different heights - first one of another
+// account (no common signer: harmless for the victim), a few blocks later one of the victim's own signer. The victim
+// is valid only far ahead (ValidUntilBlock beyond the traceable window of the first namer) and is submitted when the
+// first namer has just become untraceable while the second still is traceable: it must be refused.
+func (s *netSim) staleConflictScenario(t NetTx, mtb uint32) {
+	r := s.r
+	bc := r.P.BC
+	a := r.prod.kr.acct(t.Op.A)
+	other := r.prod.kr.acct(t.Op.A + 1)
+	h0 := bc.BlockHeight()
+	victim := s.simpleTransfer(a, r.prod.kr.acctHash(t.Op.B), 7)
+	victim.ValidUntilBlock = h0 + mtb + 4
+	neotest.AddNetworkFee(r.P.tb, bc, victim, a)
+	if err := a.SignTx(bc.GetConfig().Magic, victim); err != nil {
+		sim.Harnessf("sign: %v", err)
+	}
+	mk := func(signer neotest.SingleSigner, amount int64, vub uint32) *transaction.Transaction {
+		c := s.simpleTransfer(signer, r.prod.kr.acctHash(t.Op.B), amount)
+		c.ValidUntilBlock = vub
+		c.Attributes = append(c.Attributes, transaction.Attribute{Type: transaction.ConflictsT, Value: &transaction.Conflicts{Hash: victim.Hash()}})
+		neotest.AddNetworkFee(r.P.tb, bc, c, signer)
+		c.NetworkFee += 10_000_000
+		if err := signer.SignTx(bc.GetConfig().Magic, c); err != nil {
+			sim.Harnessf("sign: %v", err)
+		}
+		return c
+	}
+	inc := bc.GetMaxValidUntilBlockIncrement()
+	n1 := mk(other, 3, h0+min(inc, 3))
+	s.conflictVictims[victim.Hash()] = append(s.conflictVictims[victim.Hash()], n1.Hash())
+	r.out.Faults["defective_tx/named-by-on-chain-conflicts"]++
+	r.out.Probes["stale_conflict_scenario"]++
+	r.log.Addf("t=%dms client: two transactions will name one victim at different heights (MaxTraceableBlocks %d)", s.now()/time.Millisecond, mtb)
+	s.sendToTargets(n1, 0xff)
+	s.at(s.now()+3500*time.Millisecond, func() {
+		h := r.P.BC.BlockHeight()
+		n2 := mk(a, 4, h+min(inc, 3))
+		s.conflictVictims[victim.Hash()] = append(s.conflictVictims[victim.Hash()], n2.Hash())
+		s.sendToTargets(n2, 0xff)
+	})
+	for _, d := range []uint32{mtb + 1, mtb + 2} {
+		s.at(s.now()+time.Duration(d)*blockTimeMS*time.Millisecond+500*time.Millisecond, func() { s.sendToTargets(victim, t.Targets|1) })
 	}
 }
 
